@@ -27,11 +27,11 @@ func init() {
 				Rule: "a run is non-trivial when at least one byte position had all 255 substitutions verified and judged",
 			},
 			{
-				Name: "faults", Engine: attest.Engine{Mode: attest.ModeFaults}, Quick: 1200, Thorough: 24000,
+				Name: "faults", Engine: attest.Engine{Mode: attest.ModeFaults}, Quick: 2400, Thorough: 24000,
 				Rule: "a run is non-trivial when at least one mutant differing from the original was verified and judged",
 			},
 			{
-				Name: "clockpolicy", Engine: attest.Engine{Mode: attest.ModeClockPolicy}, Quick: 1200, Thorough: 24000,
+				Name: "clockpolicy", Engine: attest.Engine{Mode: attest.ModeClockPolicy}, Quick: 2400, Thorough: 24000,
 				Rule: "a run is non-trivial when at least one (time, policy) point was verified and compared with the reference model",
 			},
 		},
